@@ -122,8 +122,17 @@ claim("C02", "writer/reader table agreement + separator and framing-header agree
       TRUST, "DESIGN.md §3 C02 (revised in §6)")
 _unused = ("C02", "value-space equality of serialised vs. parsed messages over the whole builder API: no structural clause that is both necessary and "
           "not already claimed under C05/C16/C17/C18; deciding it needs execution or a solver (different family)")
-na("C20", "pure byte arithmetic (sextet packing / padding by length mod 3) with computed, not tabulated, alphabets: no table or path "
-          "shape to check; goto-analyzer cannot ingest the unit (libstdc++, std::byte); needs execution or a solver")
+claim("C20", "interval abstract interpretation of the two alphabet functions (table agreement on intervals) + bit-provenance dataflow over "
+      "the expression trees of every store + token agreement / guard dominance for the Basic credential accessors",
+      "Partial: (1) EncodeByte is the RFC 4648 alphabet table on 0..63 and DecodeCharacter its inverse, with every other character "
+      "(the padding included) a non-sextet and the sextet threshold separating the two; (2) every bit of every sextet written by Encode() "
+      "and of every octet written by Decode() comes from the input bit RFC 4648 prescribes, in full groups and both tail cases, each "
+      "group position written once, padding '=' elsewhere, strides 3/4; (3) the left-over-sextet size table; (4) scheme prefix and "
+      "delimiter tokens agree between setBasicUserPassword, hasMethod<Basic>, getBasicUser and getBasicPassword, the getters split at the "
+      "first delimiter and the setter refuses a user containing it. Decided for all byte values because the bit-provenance domain is exact "
+      "for shifts, masks and ors by constants. NOT decided: the length arithmetic (CalculateEncodedSize, loop bounds: that every group is "
+      "visited) and the rejection of every invalid text -- value-level.",
+      TRUST, "DESIGN.md §3 C20 (revised)")
 
 
 def main():
